@@ -102,12 +102,19 @@ def run_variant(args):
 # stored refactorings a check cannot yet follow (documented in DESIGN.md 10.9): reported in the evidence, not failing the self-test
 KNOWN_UNDECIDED = {
     "C17": {"set4_8": "flatten - single vmap - unflatten of the [S, A, E] successor array is outside the kernel IR's reshape vocabulary",
-            "r2set4_2": "one broadcast scatter per event (index arrays [1, A] x [S, 1] x [S, A]) instead of the event x action double loop"},
+            "r2set4_2": "one broadcast scatter per event (index arrays [1, A] x [S, 1] x [S, A]) instead of the event x action double loop",
+            "r5set4_2": "one loop over rows laid out once as [E*A, S] (enumerate(zip(rows_by_event_and_action(..)))) instead of the event x action double loop"},
     "C02": {"r2set2_3": "history rows precomputed as a Python list and walked with enumerate(zip(rows, rows[1:])): no loop summary"},
     "C03": {"r2set2_3": "same", "r4set4_2": "padding mask moved into a new BatchProcessor.padding_mask() method: the BatchProcessor is summarised, not interpreted"},
     "C06": {"r4set4_2": "same"},
     "C08": {"r4set4_2": "same"},
     "C07": {"r2set2_3": "same"},
+    "C13": {"r5set4_1": "create_range_space fills a preallocated array from np.meshgrid views in a loop over enumerate(grids): another enumeration algorithm",
+            "r5set5_1": "Mirjalili delivery splits built one age class at a time by a nested comprehension instead of filtering the Cartesian product: another enumeration algorithm"},
+    "C14": {"r5set4_1": "same", "r5set5_1": "same"},
+    "C15": {"r5set4_1": "same", "r5set5_1": "same"},
+    "C16": {"r5set4_1": "same", "r5set5_1": "same"},
+    "C19": {"r5set4_1": "same"},
     "C20": {"r4set3_1": "verbosity tables replaced by one IntEnum (`_Verbosity(v).name`, `_Verbosity.__members__.get(name)`): no literal table to read"},
 }
 
